@@ -27,6 +27,12 @@ def check(ctx):
                "reserve() appends exactly one row (resource, midnight(day), task, units) and returns exactly the units stored; "
                "queries compare the stored day key", floor=2)
     ctx.guarded(o, lambda o: ledger_shape(ctx, o))
+    # a ledger query that UNDER-counts a day (a scan that stops early, rows left out) lets more be booked than the calendar offers
+    # (C03) and understates the date share (C08 / C09), but every clause of C04 still holds: the amounts still add up to the
+    # remaining work, one booking per day, and a share computed from a smaller sum stays inside the reserved day.  Not decided here.
+    _demote(o, lambda f_: 'stops early' in f_.msg or 'leaves out rows' in f_.msg,
+            " [an under-counted ledger sum is C03's / C08's / C09's finding: the reserved total, the once-per-day rule and the "
+            "24-hour window of C04 do not depend on it, so for this property it is not decided]")
 
     for S in BOTH:
         ps = PassShape(ctx, S)
@@ -68,6 +74,13 @@ def check(ctx):
                    f"{n}: computed start/end are day + booked share of that day (same resource/day/selector as the reservations)", floor=2)
         ctx.guarded(o, lambda o, ps=ps: sched_fill.encoding(ctx, o, ps, strict_zero=False))
         ctx.guarded(o, lambda o, ps=ps: fill_result_not_searched(ctx, o, ps))
+        ctx.guarded(o, lambda o, ps=ps: share_bounded_by_booking(ctx, o, ps))
+        if S['dir'] == -1:
+            # backward: the fill always starts on the day before midnight(end) (backward_first_day), so every reservation lies
+            # before the end whatever share the search encoded into it; how the end encodes the capacity is C09's / C07's clause
+            _demote(o, lambda f_, q=ctx.prog.func(S['search']).qual: f_.func == q,
+                    " [backward: the reservations lie before the end whatever day share the search encodes into it (the fill starts on the "
+                    "day before midnight(end)); the share formula of the end is C09's / C07's clause, for this property it is not decided]")
 
     # what is reserved is measured against the capacity the resource reports: it must be the calendar's answer for the date asked,
     # not a remembered one (C17's obligation, reused as in C08/C09)
@@ -237,6 +250,46 @@ def fill_result_not_searched(ctx, o, ps: PassShape):
                                  f"with capacity, which can lie days away from the {'last' if S['dir'] == 1 else 'first'} reserved day - "
                                  + ("the end is not within the 24 hours following the last reserved day's midnight" if S['dir'] == 1 else
                                     "the start is not within the first reserved day"))
+
+
+def _demote(o, pred, note):
+    """findings of a shared rule that describe a defect of another property's clause: not decided for C04"""
+    moved = [f_ for f_ in o.refuted if pred(f_)]
+    if moved:
+        o.refuted = [f_ for f_ in o.refuted if f_ not in moved]
+        for f_ in moved:
+            f_.msg += note
+        o.unknown.extend(moved)
+
+
+def share_bounded_by_booking(ctx, o, ps: PassShape):
+    """C04 asks of the date share only that it lies in (0, 1] of the reserved day (the end within the 24 hours after the last
+    reserved day's midnight).  When the divisor of the share is not a capacity read the rule can follow (a memo table, a helper)
+    but it is the very local the booked amount was bounded by - `reserve(.., min(left, V - RESV))` .. `RESV' / V` - the share
+    cannot exceed 1 whatever V stands for: whether V is the calendar's capacity of that day is C03's / C08's clause, for C04 the
+    finding is not decided"""
+    fill = ctx.prog.func(ps.S['fill'])
+    moved = []
+    for f_ in o.refuted:
+        if 'not by the capacity of the same day' not in f_.msg or f_.func != fill.qual:
+            continue
+        V = f_.construct
+        bounded = False
+        for c_ in sched.reserve_calls(ctx, fill):
+            if len(c_.args) != 4 or not V.isidentifier():
+                continue
+            amt = Expander(ctx.prog, fill, ctx.typer).expand(c_.args[3], cfg_of(fill).node_containing(c_), stop={V})
+            for a_ in (facts.flatten_lattice(amt, 'min') or []):
+                if isinstance(a_, ast.BinOp) and isinstance(a_.op, ast.Sub) and isinstance(a_.left, ast.Name) and a_.left.id == V:
+                    bounded = True
+        if bounded:
+            moved.append(f_)
+    if moved:
+        o.refuted = [f_ for f_ in o.refuted if f_ not in moved]
+        for f_ in moved:
+            f_.msg += (" [the booked amount is bounded by the same value, so the share stays within the reserved day: a divisor that is not "
+                       "the day's calendar capacity is C03's / C08's finding, for this property it is not decided]")
+        o.unknown.extend(moved)
 
 
 def default_estimate_stored(ctx, o, S):
